@@ -461,6 +461,9 @@ func (fs *readOnlyFsInternal) populateFS(bundle *core.Bundle) (*ReadOnlyFS, erro
 		return nil, err
 	}
 
+	// the root directory can always be listed, even when the bundle holds no file
+	fs.readDirMap[fuseops.RootInodeID] = make([]fuseutil.Dirent, 0, 16)
+
 	fs.l.Info("Populating fs", zap.Int("entryCount", len(fs.bundle.BundleEntries)))
 	if err := populateFSAddBundleEntries(&populate{fs: fs, bundle: bundle, txns: txns}); err != nil {
 		return nil, err
